@@ -336,3 +336,59 @@ class MetaGetTotalError(Contract):
 
 CONTRACTS += [GetTotalError(), MetaGetTotalError(1), MetaGetTotalError(2), MetaGetTotalError(3)]
 LEMMAS = list(globals().get("LEMMAS", [])) + [L.SmtLemma("sum-nonneg", _sum_nonneg_lemma, note="a ghost Sum of non-negative entries is non-negative (induction)")]
+
+
+# --------------------------------------------------------------------------- local error estimators: never negative (C13), and what they measure
+EC_FILE = "sparseSpACE/ErrorCalculator.py"
+
+
+class LocalErrorEstimate(Contract):
+    """the two default local error estimators (dimension-wise: hierarchical-surplus volumes of an interval; extend-split: deviation of an area from its
+    parent's estimate) for result vectors of length 1..3 and the norms 1, 2, inf: the estimate is the library-normalised norm of the absolute values and
+    therefore never negative"""
+
+    def __init__(self, kind, n, ordv, tag):
+        self.kind, self.n, self.ordv = kind, n, ordv
+        self.file = EC_FILE
+        self.qualname = {"volume": "ErrorCalculatorSingleDimVolumeGuided.calc_error", "extend": "ErrorCalculatorExtendSplit.calc_error",
+                         "extend-parent": "ErrorCalculatorExtendSplit.calc_error"}[kind]
+        self.label = "%s[%slength %d, norm %s]" % (self.qualname, "parent estimation, " if kind == "extend-parent" else "", n, tag)
+
+    def vec(self, S, name):
+        return Seq("array", [S.real("%s%d" % (name, i)) for i in range(self.n)])
+
+    def inputs(self, S):
+        if self.kind == "volume":
+            ro = Obj("RefinementObjectSingleDimension", dict(volume=self.vec(S, "vol")))
+        else:
+            ro = Obj("RefinementObjectExtendSplit", dict(value=self.vec(S, "val"), sum_siblings=self.vec(S, "sib"), switch_to_parent_estimation=(self.kind == "extend-parent"),
+                                                         parent_info=Obj("ErrorInfo", dict(previous_value=self.vec(S, "prev")))))
+        return {"self": Obj(self.qualname.split(".")[0], {}), "refine_object": ro, "norm": self.ordv, "volume_weights": None}
+
+    def spec(self, S, old):
+        f = old["refine_object"].fields
+        if self.kind == "volume":
+            terms = [z3.If(v >= 0, v, -v) for v in f["volume"].items]
+        else:
+            cur = f["sum_siblings"].items if self.kind == "extend-parent" else f["value"].items
+            terms = [z3.If(a - b >= 0, a - b, b - a) for a, b in zip(cur, f["parent_info"].fields["previous_value"].items)]
+        n = self.n
+        scale = z3.RealVal(1) if isinstance(self.ordv, Inf) else (z3.RealVal(n) if self.ordv == 1 else P.sqrt_term(S.ex, z3.RealVal(n)))
+        return P.norm_term(S.ex, terms, self.ordv) / scale
+
+    def post(self, S, old, env, result):
+        from pyvc import values as Vv
+        r = Vv.to_z3(result, True)
+        return [Cl("estimate-is-the-normalised-norm-of-the-absolute-values", r == self.spec(S, old), prop=True),
+                Cl("estimate-never-negative", r >= 0, prop=True)]
+
+    def model_to_input(self, model):
+        from pyvc import modelparse as mp
+        g = lambda k: mp.tofloat(mp.num(model.get(k, "0")))  # noqa
+        names = {"volume": ("vol",), "extend": ("val", "prev"), "extend-parent": ("sib", "prev")}[self.kind]
+        return {"kind": "C13.local_error", "estimator": self.kind, "n": self.n, "norm": "inf" if isinstance(self.ordv, Inf) else self.ordv,
+                "vectors": {nm: [g("%s%d" % (nm, i)) for i in range(self.n)] for nm in names}}
+
+
+CONTRACTS += [LocalErrorEstimate(k, n, o, t) for k in ("volume", "extend", "extend-parent") for n in (1, 2, 3) for o, t in ((1, "1"), (2, "2"), (Inf(1), "inf"))]
+ASSUMPTIONS += ["local error estimators: vectors of length 1..3, norms 1/2/inf, no volume weights (the default of both strategies)"]
